@@ -84,4 +84,3 @@ func TestVP_C13_NearerExit(t *testing.T) {
 		}
 	})
 }
-
